@@ -22,8 +22,17 @@ type vFM struct {
 // (hashes H0,H1, sizes symbolic). Each digest is one of:
 //   0: H0 with a symbolic stated size   1: H1 with a symbolic stated size
 //   2: a hash held nowhere locally      3: the empty blob
+func vFindMissingShape(withProxy bool, workers int) { vFindMissingX(1, withProxy, 19, workers, true) }
+
 func vFindMissing(maxK int, withProxy bool, filler int, workers int) {
+	vFindMissingX(maxK, withProxy, filler, workers, false)
+}
+
+func vFindMissingX(maxK int, withProxy bool, filler int, workers int, shape bool) {
 	k := vsym.Choose("k", maxK+1)
+	if shape {
+		k = 1
+	}
 	d := vNewDisk(2, casblob.Zstandard, []cache.EntryKind{cache.CAS, cache.CAS}, withProxy)
 	c, st := d.c, d.st
 	if withProxy {
@@ -58,7 +67,11 @@ func vFindMissing(maxK int, withProxy bool, filler int, workers int) {
 		blobs = append(blobs, f.d)
 	}
 	for i := 0; i < k; i++ {
-		addDigest(vsym.Choose("digest", 4))
+		if shape {
+			addDigest(2) // unknown locally
+		} else {
+			addDigest(vsym.Choose("digest", 4))
+		}
 	}
 	// concrete filler so that the request crosses the internal batch size
 	for i := 0; i < filler; i++ {
@@ -66,7 +79,11 @@ func vFindMissing(maxK int, withProxy bool, filler int, workers int) {
 	}
 	if filler > 0 {
 		// one more symbolic digest after the batch edge
-		addDigest(vsym.Choose("tail", 3))
+		if shape {
+			addDigest(3 * vsym.Choose("tail", 2)) // H0 with a symbolic stated size, or the empty blob
+		} else {
+			addDigest(vsym.Choose("tail", 3))
+		}
 	}
 	orig := make([]*pb.Digest, len(blobs))
 	copy(orig, blobs)
@@ -114,6 +131,9 @@ func VerifFindMissingProxy1() { vFindMissing(1, true, 0, 1) }
 func VerifFindMissingProxy2() { vFindMissing(2, true, 0, 2) }
 func VerifFindMissingBatch()  { vFindMissing(1, false, 19, 0) }
 func VerifFindMissingBatch2() { vFindMissing(1, true, 19, 1) }
+
+// first digest: only the backend may have it; 19 filler; last digest local or empty
+func VerifFindMissingBatchProxy() { vFindMissingShape(true, 1) }
 
 // filterNonNil keeps order and drops exactly the nil entries.
 func VerifFilterNonNil() {
